@@ -84,6 +84,25 @@ def gen_cases(prop, tier, rng):
                 progs.append([f"I:{hx(s1)}", "R:0", "R:1", f"G:{hx(s2)}"])
         length = rng.choice([30, 60, 120])
         out.append(conc_case(f"cc{i}", K, cap, lim, progs, sched(rng, len(progs), length, styles[(i // 8) % 4]), seed=i))
+    # systematic: every schedule with at most two preemptions (thread x runs a events, thread y runs b events, then x
+    # to completion, then y) of a few two-thread program pairs -- all ways one call can be cut in two around the other
+    pairs = [
+        ("spur", 8, "max", [[f"I:{hx(S('a', 3))}"], [f"I:{hx(S('b', 3))}"]]),            # same bucket, CAS race
+        ("spur", 1, "max", [[f"I:{hx(S('a', 2))}"], [f"I:{hx(S('b', 2))}"]]),            # both push a new block
+        ("spur", 1, "4",   [[f"I:{hx(S('a', 2))}"], [f"I:{hx(S('b', 2))}"]]),            # the budget step (F2)
+        ("spur", 8, "max", [[f"I:{hx(S('a', 2))}"], [f"I:{hx(S('a', 2))}", f"G:{hx(S('a', 2))}", "R:0"]]),   # same string
+        ("spur", 8, "max", [[f"IS:{hx(S('a', 2))}"], [f"IS:{hx(S('a', 2))}", "R:0"]]),   # static / static, equal content
+        ("cap1", 8, "max", [[f"I:{hx(S('a', 2))}"], [f"IS:{hx(S('b', 2))}", "R:0"]]),    # the last key
+        ("spur", 8, "max", [[f"I:{hx(S('a', 2))}", f"I:{hx(S('a', 2, 5))}"], [f"G:{hx(S('a', 2))}", "R:0", f"G:{hx(S('a', 2, 5))}"]]),  # reader vs writer, same shard
+    ]
+    stepq = 1 if tier == "thorough" else 4
+    k = 0
+    for K, cap, lim, progs in pairs:
+        for first in (0, 1):
+            for a in range(0, 30, stepq):
+                for b in range(0, 30, stepq):
+                    sch = [first] * a + [1 - first] * b + [first] * 40 + [1 - first] * 40
+                    out.append(conc_case(f"sy{k}", K, cap, lim, progs, sch, seed=k)); k += 1
     # corpus: the F2 witness schedule (both threads check the budget, then both add)
     out.insert(0, conc_case("corpus-F2", "spur", 1, 4, [[f"I:{hx(b'ab')}"], [f"I:{hx(b'cd')}"]], [0, 1] * 40))
     return out
